@@ -22,6 +22,7 @@ var commonStub = []string{"Go map iteration order (seeded oracle at every rewrit
 
 func profC07(t *tape.Tape) model.Profile {
 	p := model.Profile{
+		PrefixTraps: t.Chance(1, 3),
 		Mods: [2]int{2, 5}, Subs: [2]int{0, 3}, Typedefs: [2]int{0, 2}, Identities: [2]int{0, 1}, Groupings: [2]int{0, 3},
 		TopNodes: [2]int{1, 4}, Augments: [2]int{1, 10}, Deviations: [2]int{0, 0}, Depth: 3,
 		Invalid: []string{model.InvAugMissing, model.InvAugLeaf, model.InvAugCollision, model.InvAugCollisionOwn}, InvalidPct: 8, MaxInvalid: 1,
@@ -49,6 +50,7 @@ func augmentCount(s *model.Scenario) int {
 
 func profC06(t *tape.Tape) model.Profile {
 	p := model.Profile{
+		PrefixTraps: t.Chance(1, 3),
 		Mods: [2]int{1, 4}, Subs: [2]int{0, 2}, Typedefs: [2]int{1, 3}, Identities: [2]int{0, 2}, Groupings: [2]int{2, 5},
 		TopNodes: [2]int{2, 5}, Augments: [2]int{0, 3}, Deviations: [2]int{0, 4}, DevMods: [2]int{1, 2}, Depth: 4,
 		Invalid: []string{model.InvUnknownGrouping, model.InvUsesCycle}, InvalidPct: 4, MaxInvalid: 1,
@@ -85,6 +87,7 @@ func usesCount(s *model.Scenario) (uses int, reused bool) {
 
 func profC08(t *tape.Tape) model.Profile {
 	p := model.Profile{
+		PrefixTraps: t.Chance(1, 3),
 		Mods: [2]int{1, 3}, Subs: [2]int{0, 1}, Typedefs: [2]int{0, 2}, Identities: [2]int{0, 1}, Groupings: [2]int{0, 2},
 		TopNodes: [2]int{2, 5}, Augments: [2]int{0, 2}, Deviations: [2]int{1, 6}, DevMods: [2]int{1, 3}, Depth: 3,
 		Invalid: []string{model.InvDevMissing, model.InvDevAddDefault, model.InvDevDelDefault, model.InvDevDelOther, model.InvDevMinNonList, model.InvDevDelMin, model.InvDevBadType, model.InvDevUnknownKind},
@@ -203,6 +206,7 @@ func c08Frame(c *refCase, ms *yang.Modules, cp *model.Compiled, o *core.Outcome,
 
 func profC11(t *tape.Tape) model.Profile {
 	p := model.Profile{
+		PrefixTraps: t.Chance(1, 3),
 		Mods: [2]int{1, 5}, Subs: [2]int{0, 3}, Typedefs: [2]int{0, 2}, Identities: [2]int{1, 6}, Groupings: [2]int{0, 1},
 		TopNodes: [2]int{1, 3}, Augments: [2]int{0, 1}, Deviations: [2]int{0, 0}, Depth: 2,
 		Invalid: []string{model.InvIdentityCycle, model.InvUndefinedBase}, InvalidPct: 25, MaxInvalid: 1, OrderTraps: true,
